@@ -953,7 +953,15 @@ def run_reads(chk, tier, only=None):
         jobs = []
         for di, desc in enumerate(descs):
             desc = dict(desc, name=f'disp_{di}.nitf')
-            subj = build_subject(desc, tmpdir)
+            try:
+                subj = build_subject(desc, tmpdir)
+            except Infra:
+                raise
+            except Exception as e:
+                # every generated configuration is a supported one: a reader that cannot be built over it is a failure, not a skip
+                fails.append({'kind': 'dispatch', 'subject': desc, 'req': None,
+                              'msg': f'building a {desc["kind"]} reader over {len(desc["images"])} images raised {type(e).__name__}: {str(e)[:300]}'})
+                continue
             subjects.append(subj)
             stats['subjects'][desc['kind']] = stats['subjects'].get(desc['kind'], 0) + 1
             if di < ncorpus:
